@@ -48,7 +48,7 @@ where
     G::EdgeWeight: Clone + PartialOrd,
     G::NodeId: Eq + Hash,
 {
-    let graph_size = g.node_references().size_hint().0;
+    let graph_size = g.node_bound();
     let mut auxiliary_const = ArticulationPointTracker::new(graph_size);
 
     for node in g.node_references() {
